@@ -823,6 +823,12 @@ namespace svmon
     {
       destroy_all ();
       Internal in;
+      if (FSTATS ().made)
+      {
+        COV ().count ("fancy-pointers-made", FSTATS ().made); COV ().count ("fancy-pointer-derefs", FSTATS ().derefs);
+        COV ().count ("fancy-pointer-arithmetic", FSTATS ().arith);
+        FSTATS ().made = FSTATS ().derefs = FSTATS ().arith = 0;
+      }
       if (mon (3) && feat.tracked && REG ().live != 0)
       {
         violate ("C03", "final.elements-leaked", "%ld element(s) still alive after all containers were destroyed", REG ().live);
